@@ -13,9 +13,15 @@ type regExpParser struct {
 	length    int
 	chrOffset int
 	offset    int
+	depth     int
 	chr       rune
 	invalid   bool
 }
+
+// maxGroupDepth is the deepest nesting of groups scanned. The regexp package
+// refuses anything nested deeper than 1000 anyway, and an unbounded recursion
+// on "((((..." exhausts the stack, which cannot be recovered from.
+const maxGroupDepth = 1000
 
 // TransformRegExp transforms a JavaScript pattern into  a Go "regexp" pattern.
 //
@@ -80,6 +86,17 @@ func (p *regExpParser) scan() {
 
 // (...)
 func (p *regExpParser) scanGroup() {
+	p.depth++
+	defer func() { p.depth-- }()
+	if p.depth > maxGroupDepth {
+		p.error(-1, "Groups nested too deeply")
+		p.invalid = true
+		// Nothing after this point can make the pattern valid: stop scanning.
+		p.offset = p.length
+		p.read()
+		return
+	}
+
 	str := p.str[p.chrOffset:]
 	if len(str) > 1 { // A possibility of (?= or (?!
 		if str[0] == '?' {
